@@ -210,12 +210,17 @@ func (w *c13World) observe(k string, t int) (got, want string, pan string) {
 		// walk with the massive option (single root: the order is fixed)
 		var rows []string
 		var err error
+		var mu sync.Mutex // (the callback of one root is called sequentially; should a tree call it from several goroutines, the rows come out in a wrong order and are reported - the harness must survive that)
 		p := guardMaybeMassive(true, func() {
 			err = gtree.WalkFromRoot(root, func(wn *gtree.WalkerNode) error {
+				mu.Lock()
+				defer mu.Unlock()
 				rows = append(rows, fmt.Sprintf("%s|%s|%d|%v", wn.Row(), wn.Path(), wn.Level(), wn.HasChild()))
 				return nil
 			}, gtree.WithMassive(nil))
 		})
+		mu.Lock()
+		defer mu.Unlock()
 		var wr []string
 		for _, r := range model.Rows(m, model.DefaultFmt) {
 			wr = append(wr, fmt.Sprintf("%s|%s|%d|%v", r.Line, r.Path, r.Level, r.HasChild))
